@@ -3,11 +3,12 @@
    history h switched on (Hist = TRUE); every quiescent state (both members have returned,
    main and both senders are finished) prints its configuration and the order in which the
    environment acted: "rel0"/"rel1" (a member in mode normal returns), "cancel" (the caller
-   cancels), "close" (the caller closes the returned reader).  The harness replays each
+   cancels), "close" (the caller closes the returned reader); the configuration includes whether Close of each
+   member's reader returns an error.  The harness replays each
    printed schedule on the real code with gated fake members. *)
 EXTENDS OciUnifyConc, Json
 
 Emit == Quiescent =>
           PrintT(<<"MBT", ToJson([out |-> <<out[0], out[1]>>, mode |-> <<mode[0], mode[1]>>,
-                                  style |-> style, acts |-> h])>>)
+                                  style |-> style, closeerr |-> <<closeErr[0], closeErr[1]>>, acts |-> h])>>)
 ===========================================================================
